@@ -32,26 +32,68 @@ impl StateStorage {
         self.rawdata.resize(size, 0)
     }
     fn get_state(&self, size: u64) -> &[RawVal] {
+        #[cfg(mimium_verif)]
+        verif_hooks::record(0, self.pos as u64, size, self.rawdata.len() as u64);
         unsafe {
             let head = self.rawdata.as_ptr().add(self.pos);
             slice::from_raw_parts(head, size as _)
         }
     }
     fn get_state_mut(&mut self, size: usize) -> &mut [RawVal] {
+        #[cfg(mimium_verif)]
+        verif_hooks::record(1, self.pos as u64, size as u64, self.rawdata.len() as u64);
         unsafe {
             let head = self.rawdata.as_mut_ptr().add(self.pos);
             slice::from_raw_parts_mut(head, size as _)
         }
     }
     fn get_as_ringbuffer(&mut self, size_in_samples: u64) -> Ringbuffer<'_> {
+        #[cfg(mimium_verif)]
+        verif_hooks::record(2, self.pos as u64, size_in_samples + 2, self.rawdata.len() as u64);
         let data_head = unsafe { self.rawdata.as_mut_ptr().add(self.pos) };
         Ringbuffer::new(data_head, size_in_samples)
     }
     fn push_pos(&mut self, offset: StateOffset) {
+        #[cfg(mimium_verif)]
+        verif_hooks::record(3, self.pos as u64, std::convert::Into::<u64>::into(offset), self.rawdata.len() as u64);
         self.pos = (self.pos as u64 + (std::convert::Into::<u64>::into(offset))) as usize;
     }
     fn pop_pos(&mut self, offset: StateOffset) {
+        #[cfg(mimium_verif)]
+        verif_hooks::record(4, self.pos as u64, std::convert::Into::<u64>::into(offset), self.rawdata.len() as u64);
         self.pos = (self.pos as u64 - (std::convert::Into::<u64>::into(offset))) as usize;
+    }
+}
+
+/// Verification hooks (only with `--cfg mimium_verif`): a thread-local recorder of state-storage
+/// accesses `(kind, cursor, size, storage_len)`; kind 0 = get_state, 1 = get_state_mut,
+/// 2 = ring buffer, 3 = push_pos, 4 = pop_pos.
+#[cfg(mimium_verif)]
+pub mod verif_hooks {
+    use std::cell::RefCell;
+    thread_local! {
+        static TRACE: RefCell<Option<Vec<(u8, u64, u64, u64)>>> = const { RefCell::new(None) };
+    }
+    pub fn start() {
+        TRACE.with(|t| *t.borrow_mut() = Some(vec![]));
+    }
+    pub fn take() -> Vec<(u8, u64, u64, u64)> {
+        TRACE.with(|t| t.borrow_mut().take().unwrap_or_default())
+    }
+    pub fn record(kind: u8, pos: u64, size: u64, len: u64) {
+        TRACE.with(|t| {
+            if let Some(v) = t.borrow_mut().as_mut() {
+                v.push((kind, pos, size, len));
+            }
+        });
+    }
+}
+
+#[cfg(mimium_verif)]
+impl Machine {
+    /// Flat global state words and the current state cursor.
+    pub fn verif_global_state(&self) -> (&[RawVal], usize) {
+        (&self.global_states.rawdata, self.global_states.pos)
     }
 }
 
